@@ -32,6 +32,30 @@ PAIRS = {
 }
 
 
+def _built_with_cdr(serde, self_ty):
+    """The access object is handed the payload when it is built: some place in value/de.rs constructs it with a field
+    that comes from `Cons::cdr` (directly or wrapped in `Some`)."""
+    base = (self_ty or "").split("<")[0]
+    if not base:
+        return False
+    for g in serde.fns:
+        if not g.file.endswith("value/de.rs"):
+            continue
+        defs = None
+        for b in g.blocks:
+            for st in b["stmts"]:
+                if st["k"] == "assign" and st["rv"]["k"] == "agg" and st["rv"].get("adt") == base:
+                    defs = defs or common.defs_of(g)
+                    for op in st["rv"].get("fields") or []:
+                        o = common.origin(g, defs, op)
+                        for _ in range(3):
+                            if o["k"] == "agg" and o["rv"].get("adt") == "std::option::Option" and o["rv"].get("fields"):
+                                o = common.origin(g, defs, o["rv"]["fields"][0])
+                        if o["k"] == "call" and any(x.endswith("Cons::cdr") for x in F.callee_names(o["t"])):
+                            return True
+    return False
+
+
 def _lossless(frm, to):
     """Is `x as to` the identity on values for every x of type frm?"""
     from ..sim import _ty_range
@@ -243,7 +267,7 @@ def run(ctx):
                 h = serde.fn(c.get("resolved") or c.get("path") or "") if c.get("resolved_crate", c.get("crate")) == serde.name else None
                 if h is not None and h.file.endswith("value/de.rs") and not h.impl_trait:
                     work.append(h)
-        uses_cdr = any(x.endswith("Cons::cdr") for x in names)
+        uses_cdr = any(x.endswith("Cons::cdr") for x in names) or _built_with_cdr(serde, f.self_ty)
         routed = want == "cdr" or any(x.endswith("::" + want) for x in names)
         if uses_cdr and routed:
             r.ok("VariantAccess::%s consumes the cdr of the variant cell%s" % (m, "" if want == "cdr" else " through " + want), f)
